@@ -1077,6 +1077,10 @@ func (tee TemplElementExpression) Write(w io.Writer, indent int) error {
 	}
 	sourceLines := bytes.Split(source, []byte("\n"))
 	reformattedSourceLines := bytes.Split(reformattedSource, []byte("\n"))
+	// gofmt may join or split lines of the indented copy (e.g. a composite literal
+	// whose first element follows the opening brace); the line-by-line comparison
+	// is only meaningful when both have the same number of lines.
+	sameShape := len(sourceLines) == len(reformattedSourceLines)
 	for i := range sourceLines {
 		if i == 0 {
 			if err := writeIndent(w, indent, "@"+string(sourceLines[i])); err != nil {
@@ -1087,7 +1091,7 @@ func (tee TemplElementExpression) Write(w io.Writer, indent int) error {
 		if _, err := io.WriteString(w, "\n"); err != nil {
 			return err
 		}
-		if string(sourceLines[i]) != string(reformattedSourceLines[i]) {
+		if !sameShape || string(sourceLines[i]) != string(reformattedSourceLines[i]) {
 			if _, err := w.Write(sourceLines[i]); err != nil {
 				return err
 			}
